@@ -53,7 +53,38 @@ def same_stem_reports(ctx, n):
             shutil.rmtree(d, ignore_errors=True)
 
 
+def unusual_syntax_reports(ctx, n):
+    """The offending import written where a line-oriented reader would not look: inside try ... except* ..., after a semicolon,
+    on the header line of a compound statement - the report of 'a should not import o' names it like any other."""
+    import shutil
+    from pytestarch import get_evaluable_architecture
+    from harness import common, rules, scan
+    shapes = ["try:\n    import proj.{o}\nexcept* ImportError:\n    pass\n", "try:\n    pass\nexcept* ValueError:\n    from proj import {o}\n",
+              "x = 1; import proj.{o}\n", "if x: import proj.{o}\n", "class K: from proj import {o}\n", "def f(): import proj.{o}\n",
+              "try: import proj.{o}\nfinally: pass\n", "for i in (): pass\nelse: import proj.{o}\n"]
+    for it in range(n):
+        rng = ctx.rng
+        a, o = rng.sample(scan.POOL, 2)
+        d = common.scratch_dir()
+        try:
+            root = d / "proj"
+            root.mkdir()
+            (root / (o + ".py")).write_text("")
+            shape = shapes[it % len(shapes)]
+            (root / (a + ".py")).write_text(shape.format(o=o))
+            arch = get_evaluable_architecture(str(root), str(root))
+            io = rules.run_rule(rules.build_rule(dict(subj=("named", [f"proj.{a}"]), verbs=["should_not"], imp=True, exc=False, obj=("named", [f"proj.{o}"]))), arch)
+            ctx.evaluations += 1
+            ctx.stat("reports_on_imports_in_unusual_positions")
+            if io[0] != "FAIL" or rules.parse_message(io[1]) != frozenset({("C", f"proj.{a}", f"proj.{o}")}):
+                ctx.violation(dict(source=shape.format(o=o), result=[io[0], io[1][:300]]), "the report does not name the import written in an unusual position", {"kind": "unusual_syntax_report"})
+            ctx.mark_nontrivial(("unusual", it % len(shapes)))
+        finally:
+            shutil.rmtree(d, ignore_errors=True)
+
+
 def run(ctx):
+    unusual_syntax_reports(ctx, 16 if ctx.quick else 200)
     same_stem_reports(ctx, 8 if ctx.quick else 200)
     c01.run(ctx, lines=True)
     ctx.rule = ctx.rule.replace("each rule evaluated", "report lines (parsed from str(AssertionError)) compared as sets with the model's and, for strict rules, with the documented violating set; each rule evaluated")
